@@ -5,6 +5,22 @@ from hypothesis import strategies as st
 NAN = float('nan')
 
 
+class Token(object):
+    """a plain instance: equal only to itself (identity equality), hashable"""
+
+    def __init__(self, n):
+        self.n = n
+
+    def __repr__(self):
+        return 'Token(%d)' % self.n
+
+    def __deepcopy__(self, memo):       # the harness snapshots outputs with deepcopy; a token stays itself there
+        return self
+
+
+TOKENS = [Token(n) for n in range(3)]
+
+
 def mk(spec):
     k = spec[0]
     if k == 'int':
@@ -21,6 +37,8 @@ def mk(spec):
         return None
     if k == 'nested':
         return (spec[1], (str(spec[1]) + 'x', float(spec[1])))
+    if k == 'token':
+        return TOKENS[spec[1]]
     if k == 'nan':
         return NAN if spec[1] == 0 else float('nan')     # the shared object, or a fresh one: both differ from themselves by !=
     raise ValueError(spec)
@@ -35,6 +53,7 @@ SPEC = st.one_of(
     st.tuples(st.just('str'), st.sampled_from(['', 'ab', 'abc', 'ba'])),
     st.tuples(st.just('num'), st.integers(0, 1), st.sampled_from(['int', 'float', 'bool'])),
     st.tuples(st.just('none')),
+    st.tuples(st.just('token'), st.integers(0, 2)),
     st.tuples(st.just('nested'), st.integers(0, 1)),
 ).map(list)
 
